@@ -52,6 +52,8 @@ class Arrays(object):
         self.tab = {}
 
     def get(self, wd, shape, dtype):
+        if wd.get('as64'):
+            dtype = 'float64'      # weights as given, whatever the space
         key = (wd.get('id', None), str(np.dtype(dtype)),
                repr(wd['data']), tuple(shape))
         if wd.get('id') is None:
@@ -383,8 +385,11 @@ def leaf_weighting(draw, shape, dtype, custom=True):
     n = int(np.prod(shape, dtype=int))
     data = draw(st.lists(st.sampled_from([1.0, 2.0, 3.0, 0.5]), min_size=n,
                          max_size=n))
-    return {'type': 'array', 'id': draw(st.sampled_from([0, 1, None])),
-            'data': np.reshape(data, shape).tolist()}
+    w = {'type': 'array', 'id': draw(st.sampled_from([0, 1, None])),
+         'data': np.reshape(data, shape).tolist()}
+    if draw(st.booleans()):
+        w['as64'] = True           # float64 weights on any space
+    return w
 
 
 @st.composite
@@ -570,7 +575,8 @@ def mutations(d):
                 nd = _copy(d)
                 nd['sets'][-1] = {'k': 'Strings', 'n': 9}
                 add('component', nd, 'unequal')
-                if len(d['sets']) >= 2 and d['sets'][0] != d['sets'][-1]:
+                if len(d['sets']) >= 2 and \
+                        d['sets'][0]['k'] != d['sets'][-1]['k']:
                     # (a Cartesian product is ordered)
                     nd = _copy(d)
                     nd['sets'] = nd['sets'][::-1]
